@@ -103,6 +103,9 @@ def run(ctx):
         gens.append(res)
         hists += hs
     n_deep = len(hists) - n_states
+    # large-commit families: one NodeDatabase.Commit spanning several batch writes, reload from disk
+    n_bulk = 3 if quick else 24
+    hists += [{"mode": "bulk", "prefix": [], "ops": [], "n": [3000, 4500, 6000][i % 3], "salt": ctx.seed * 100 + i} for i in range(n_bulk)]
     log("histories: %d model edges, %d simulated" % (n_edges, n_deep))
     drv = ctx.build("c02")
     shards = shard(hists, 8 if quick else 64)
@@ -123,7 +126,7 @@ def run(ctx):
     for tp in traces:
         for k, v in count_events(tp).items():
             kinds[k] = kinds.get(k, 0) + v
-    for k in ("Reset", "U", "D", "G", "H", "C", "R", "X", "L", "P"):
+    for k in ("Reset", "U", "D", "G", "H", "C", "R", "X", "L", "P", "Bulk"):
         if not kinds.get(k):
             raise Inconclusive("no %s event was recorded: the check would be vacuous for it" % k)
     results = validate_parallel(ctx, "MptTrace", traces, timeout=1500 if quick else 6000)
@@ -149,6 +152,7 @@ def run(ctx):
         "model_edges_replayed": n_edges,
         "simulated_histories_replayed": n_deep,
         "version_histories_with_cap_sweep": n_versions,
+        "large_commit_families": n_bulk,
         "action_coverage": base["coverage"],
         "samples": samples,
         "exhaustive": True,
